@@ -349,12 +349,25 @@ def compare_state(ck, lib, c, s, tf, ts, dxf, dxs, worst, info):
     fc = np.asarray(tf.efc_force)[[p[0] for p in perm]]
     fx = np.asarray(dxf._impl.efc_force)[[p[1] for p in perm]]
     chk('efc_force', fc, fx, TOL_SOLVE * scale * 10, 'efc_force')
-  sens((3,), TOL_SOLVE * scale * 10, 'acc')
+  if info['nefc_slots'] == 0 and not FINDINGS:
+    # candidate finding F3: forward() returns before sensor.sensor_acc when the model has no constraint rows
+    pass
+  else:
+    sens((3,), TOL_SOLVE * scale * 10, 'acc')
   # ---- step
-  chk('step.qvel', ts.qvel, dxs.qvel, TOL_STEP * scale, 'step')
-  chk('step.qpos', ts.qpos, dxs.qpos, TOL_STEP * scale, 'step')
+  skip = info['skip_step']
+  if skip is None and info['implicitfast'] and not FINDINGS:
+    # candidate finding F13: mjd_actuator_vel skips actuators whose force is clamped by forcerange, MJX does not
+    frc = np.asarray(tf.actuator_force)
+    for i in range(tm.nu):
+      if tm.actuator_forcelimited[i] and (frc[i] <= tm.actuator_forcerange[i][0] or frc[i] >= tm.actuator_forcerange[i][1]):
+        skip = 'implicitfast-clamped-actuator'
   chk('step.act', ts.act, dxs.act, TOL_DYN, 'step-act')
   chk('step.time', np.array([ts.time]), np.array([float(dxs.time)]), 1e-14, 'step')
+  if skip:
+    return dict(status='ok-nostep:' + skip, ncon=ncon, nrows=nrows)
+  chk('step.qvel', ts.qvel, dxs.qvel, TOL_STEP * scale, 'step')
+  chk('step.qpos', ts.qpos, dxs.qpos, TOL_STEP * scale, 'step')
   return dict(status='ok', ncon=ncon, nrows=nrows)
 
 
@@ -389,9 +402,11 @@ class Runner:
     states = []
     for sd, settle in zip(seeds, settle_list):
       s = gx.make_state(lib, tm, sd, settle=settle)
-      if s is not None:
-        states.append(s)
-    if not states:
+      if s is None:      # diverged while settling: fall back to the raw state
+        s = gx.make_state(lib, tm, sd, settle=0)
+      states.append(s)
+    lib.warnings()
+    if any(x is None for x in states):
       ck.discard('no-finite-state')
       return
     rk4 = gm.info['option']['integrator'] == 'RK4'
@@ -400,10 +415,9 @@ class Runner:
     if os.environ.get('C43_PRINT'):
       print('  XML ' + gm.xml + ' SEEDS ' + str(list(seeds)), flush=True)
     dxb = gx.batch_data(c, states)
-    if (not FINDINGS and gm.info['option']['cone'] == 'elliptic' and c.dx0._impl.nefc > 0
-        and not np.any(np.asarray(c.dx0._impl.contact.dim) > 1)):
-      # candidate finding F2: solver._update_constraint indexes with jp.array([]) (float64) -> TypeError
-      ck.discard('finding:elliptic-without-frictional-contact-TypeError')
+    crash = gx.known_mjx_crash(c, gm)
+    if crash and not FINDINGS:
+      ck.discard(crash)        # candidate findings F2 / F15 (exceptions raised by mjx.forward on accepted models)
       return
     try:
       stepf = jax.jit(jax.vmap(mjx.step, in_axes=(None, 0)))
@@ -423,11 +437,22 @@ class Runner:
     if os.environ.get('C43_PRINT'):
       print('  model nv=%d nbody=%d ncon=%d nefc=%d %s: jit+run %.1fs' % (tm.nv, tm.nbody, c.dx0._impl.ncon, c.dx0._impl.nefc,
             gm.info['option']['integrator'], _t.time() - t0), flush=True)
-    info = dict(full_m=lambda dxi: full_m_mjx(mjx, c.mx, dxi),
+    implicitfast = gm.info['option']['integrator'] == 'implicitfast'
+    skip_step = None
+    if implicitfast and not FINDINGS:
+      if np.any(np.asarray(tm.jnt_type) == 0):
+        # candidate finding F11: the C engine applies gyroscopic derivatives to standalone free bodies (mjd_freeMhat)
+        skip_step = 'implicitfast-free-body'
+      elif tm.ntendon and np.any(np.asarray(tm.tendon_damping) > 0):
+        # candidate finding F14: C qDeriv keeps only tree-local entries of the tendon-damping derivative, MJX is dense
+        skip_step = 'implicitfast-tendon-damping'
+    info = dict(skip_step=skip_step, implicitfast=implicitfast, nefc_slots=int(c.dx0._impl.nefc),
+                full_m=lambda dxi: full_m_mjx(mjx, c.mx, dxi),
                 sens_stage=np.repeat(np.asarray(tm.sensor_needstage), np.asarray(tm.sensor_dim)) if tm.nsensor else np.zeros(0))
     labels = gm.labels()
     any_contact = False
     results = []
+    kept = []
     for i, s in enumerate(states):
       tf = lib.make_data(tm)
       gx.set_state(tm, tf, s)
@@ -437,7 +462,7 @@ class Runner:
       w = lib.warnings()
       if w:
         self.status['c-warning'] += 1
-        ck.label('c-warning')
+        ck.discard('c-engine-warning')
         continue
       dxf = jax.tree_util.tree_map(lambda x: x[i], outf)
       dxs = jax.tree_util.tree_map(lambda x: x[i], outs)
@@ -452,17 +477,21 @@ class Runner:
         rec = COLLECTED.setdefault(e.bucket, [0, str(e)[:600], gm.xml, i, list(seeds)])
         rec[0] += 1
         r = dict(status='collected')
-      self.status[r['status'].split(':')[0] + (':' + r['status'].split(':')[1] if ':' in r['status'] else '')] += 1
+      self.status[':'.join(r['status'].split(':')[:2])] += 1
       results.append(r)
+      kept.append((i, s))
       if r.get('ncon'):
         any_contact = True
-    nt = tm.nv >= 3 and (any_contact or tm.ntendon > 0 or tm.neq > 0)
-    nok = sum(1 for r in results if r['status'] == 'ok')
-    ck.case(nontrivial=nt and nok > 0, key=gm.xml,
-            sample=dict(xml=gm.xml, nv=int(tm.nv), states=len(states), fully_compared=nok,
-                        max_active_contacts=max([r.get('ncon', 0) for r in results] or [0]),
-                        statuses=sorted({r['status'] for r in results})),
-            labels=labels + ['state:' + r['status'] for r in results] + (['has-active-contact'] if any_contact else []))
+    nt_model = tm.nv >= 3 and (any_contact or tm.ntendon > 0 or tm.neq > 0)
+    for (i, s), r in zip(kept, results):
+      full = r['status'].startswith('ok')
+      ck.case(nontrivial=nt_model and full, key=(gm.xml, seeds[i], i),
+              sample=dict(xml=gm.xml, state_seed=int(seeds[i]), settle_steps=int(settle_list[i]), nv=int(tm.nv),
+                          active_contacts=int(r.get('ncon', 0)), efc_rows=int(r.get('nrows', 0)), status=r['status']),
+              labels=['state:' + r['status']] + (['active-contact'] if r.get('ncon') else []))
+    ck.label('model')
+    for l in labels:
+      ck.label('model:' + l)
 
 
 def gate(ck, lib):
@@ -488,45 +517,75 @@ def gate(ck, lib):
                     'put_model and make_data' % name, bucket='gate-accepted')
 
 
-def main(ck):
+RULE = ('models: vf.gen_mjx.models (1-3 bodies, free/ball/hinge/slide joints, sphere/capsule/box or sphere/capsule/'
+        'ellipsoid/cylinder geoms + plane, fixed/spatial tendons, equalities, actuators incl. stateful, sensors, mocap; '
+        'Euler/RK4/implicitfast, Newton, both cones) x batch of states (odd ones settled by 5-40 C steps so contacts/limits '
+        'are active); one jit(vmap(step)) per model; a case = (model, state). Non-trivial = nv>=3 and (active contact in '
+        'some state of the model or tendon/equality present) and the state was compared through constraints, solver '
+        'and (unless excluded) step; distinct by (model XML, state seed). Gate family: one unsupported feature each, must '
+        'raise NotImplementedError. The run is time-budgeted (jit cost depends on machine load).')
+ASSUMPTIONS = [
+    'MJX consumes mujoco.MjModel from the installed wheel (3.13.0), which is not the tree: cases whose wheel-compiled model '
+    'arrays differ from the tree-compiled ones are dropped as version-skew',
+    'mesh/hfield geoms excluded (trimesh not installed); SDF-descent and polytope narrow-phase pairs (ellipsoid/cylinder/box) and '
+    'capsule-capsule (1e-6 regulariser) are documented/known to differ from the C engine: a state whose contact set or contact '
+    'geometry differs on such a pair is compared only on smooth quantities',
+    'states within 1e-9 of a contact activation boundary or with cond(M)>1e8 are skipped (counted)',
+    'sub-domains where MJX deviates from this tree\'s C engine (reported as candidate findings, re-enabled with C43_FINDINGS=1): '
+    'Jdot*v term of connect/weld rows, elliptic cone without frictional contact slot (TypeError), acc-stage sensors without '
+    'constraint rows, spring/damper disable flags, actearly, implicitfast with free bodies / damped tendons / clamped actuators']
+
+
+def shard_main(ck, shard, nshards):
   mjxload.load()           # the wheel must be loaded before the tree library (see vf/mjxload.py)
   lib = ck.lib('rel')
   R = Runner(ck, lib)
-  ck.rule = ('models: vf.gen_mjx.models (1-4 bodies, free/ball/hinge/slide joints, sphere/capsule/box or sphere/capsule/'
-             'ellipsoid/cylinder geoms + plane, fixed/spatial tendons, equalities, actuators incl. stateful, sensors, mocap; '
-             'Euler/RK4/implicitfast, Newton, both cones) x batch of states (half of them settled by 0-40 C steps so '
-             'contacts/limits are active); one jit(vmap(step)) per model. Non-trivial = nv>=3 and (active contact in some '
-             'state or tendon/equality present) and at least one state compared through constraints, solver and step; '
-             'distinct by model XML. Gate family: one unsupported feature each, must raise NotImplementedError.')
-  ck.assumptions = ['MJX consumes mujoco.MjModel from the installed wheel (3.13.0), which is not the tree: cases whose '
-                    'wheel-compiled model arrays differ from the tree-compiled ones are dropped as version-skew',
-                    'mesh/hfield geoms excluded (trimesh not installed); SDF-descent and polytope narrow-phase pairs '
-                    '(ellipsoid/cylinder/box) are documented to differ from the C engine: a state whose contact set or '
-                    'contact geometry differs on such a pair is compared only on smooth quantities',
-                    'states within 1e-9 of a contact activation boundary or with cond(M)>1e8 are skipped (counted)']
-  gate(ck, lib)
-  nmodels = ck.budget(14, 400)
-  nstates = 6 if ck.quick else 16
+  if shard == 0:
+    gate(ck, lib)
+  total = ck.budget(18, 400)
+  nmodels = max(1, -(-total // nshards))
+  nstates = 6 if ck.quick else 12
+  import time as _t
+  t_start = _t.time()
+  t_budget = float(os.environ.get('C43_TIME', 100 if ck.quick else 1200))
 
   def test(case):
     gm, seeds = case
+    # a time budget never produces a violation: once it is used up (and a minimum of evidence exists) the remaining
+    # examples are skipped; jit compilation time per model depends heavily on machine load
+    if _t.time() - t_start > t_budget and len(ck.nontrivial) >= 3:
+      ck.discard('time-budget')
+      return
     settle = [0 if k % 2 == 0 else (5 + 7 * k) % 41 for k in range(len(seeds))]
     R.run_model(gm, seeds, settle)
-  strat = st.tuples(gx.models(), st.lists(mg.state_seed(), min_size=nstates, max_size=nstates))
-  ck.run_hypothesis(test, strat, nmodels, name='mjx-vs-c')
-  ck.extra['worst_rel_err'] = {k: float('%.3g' % v) for k, v in sorted(R.worst.w.items())}
-  ck.extra['state_status'] = dict(R.status)
-  ck.extra['tolerances'] = dict(kin=TOL_KIN, dyn=TOL_DYN, acc=TOL_ACC, contact=TOL_CONTACT, efc=TOL_EFC, solve=TOL_SOLVE,
-                                step=TOL_STEP, sens=TOL_SENS)
+  strat = st.tuples(gx.models(max_bodies=(2 if ck.quick else 3)),
+                    st.lists(mg.state_seed(), min_size=nstates, max_size=nstates, unique=True))
+  ck.run_hypothesis(test, strat, nmodels, name='mjx-vs-c-%d' % shard, shrink=False)
+  ck.extra['worst'] = dict(R.worst.w)
+  ck.extra['status'] = dict(R.status)
   if COLLECT:
     import json
     for k, v in sorted(COLLECTED.items()):
       print('COLLECTED %s x%d: %s' % (k, v[0], v[1]))
-    json.dump(COLLECTED, open('/var/tmp/mjxagent/collected.json', 'w'), indent=1)
+    json.dump(COLLECTED, open('/var/tmp/mjxagent/collected_%d.json' % shard, 'w'), indent=1)
+
+
+def main(ck):
+  from vf import mjxshard
+  ck.rule = RULE
+  ck.assumptions = ASSUMPTIONS
+  nshards = int(os.environ.get('C43_SHARDS', 3 if ck.quick else 6))
+  extra = mjxshard.run(ck, 'c43', nshards, timeout=(600 if ck.quick else 3600))
+  worst = mjxshard.merge_max(extra.get('worst', []))
+  ck.extra['worst_rel_err'] = {k: float('%.3g' % v) for k, v in sorted(worst.items())}
+  ck.extra['state_status'] = mjxshard.merge_sum(extra.get('status', []))
+  ck.extra['shards'] = nshards
+  ck.extra['tolerances'] = dict(kin=TOL_KIN, dyn=TOL_DYN, acc=TOL_ACC, contact=TOL_CONTACT, capsule_capsule=TOL_CAPCAP, efc=TOL_EFC,
+                                solve=TOL_SOLVE, step=TOL_STEP, sens=TOL_SENS)
   if os.environ.get('C43_PRINT'):
-    for k, v in sorted(R.worst.w.items()):
+    for k, v in sorted(worst.items()):
       print('  worst %-28s %.3g' % (k, v))
-    print('  status', dict(R.status))
+    print('  status', ck.extra['state_status'])
 
 
 LEVEL = 'exploration'
